@@ -1,5 +1,38 @@
+/-
+C17 — Malformed or hostile bytes are rejected with an error, never a crash.
+Property theorems only. Models: Model/Encoding.lean (whole-buffer decoders), Model/Chunked.lean
+(packfile reader). Every Go slice/index/make the models cover is a checked operation yielding
+`.panic` where Go would; termination is by structural recursion or explicit fuel shown sufficient.
+-/
+import WrglModel.Model.Encoding
 import WrglModel.Model.Chunked
-import WrglModel.Model.ReadModes
+import WrglModel.Lemmas.C17
 namespace Wrgl
-theorem C17_placeholder : True := trivial
+
+/-- On ANY byte string the modelled decoders return a value or an error: never a panic, never an
+    exhausted fuel (no unbounded loop). -/
+theorem C17_decoders_never_panic (b : Bytes) (p : String) :
+    strListRead b ≠ .panic p ∧ blockDecode b ≠ .panic p ∧ uintListRead b ≠ .panic p ∧
+    tableRead b ≠ .panic p ∧ commitRead b ≠ .panic p ∧ commitRead b ≠ .err "fuel" ∧
+    decodeHdr b ≠ .panic p ∧ decodeHdr b ≠ .err "fuel" ∧
+    packfileFlat b ≠ .panic p ∧ packfileFlat b ≠ .err "fuel" :=
+  ⟨strListRead_no_panic b p, blockDecode_no_panic b p, uintListRead_no_panic b p, tableRead_no_panic b p,
+   (commitRead_no_panic b p).1, (commitRead_no_panic b p).2, (decodeHdr_no_panic b p).1, (decodeHdr_no_panic b p).2,
+   (packfileFlat_no_panic b p).1, (packfileFlat_no_panic b p).2⟩
+
+/-- The packfile reader, under every read mode and every chunking of the input. -/
+theorem C17_packfile_reader_safe (mode : Site → ReadMode) (c : Chunked) (p : String) :
+    packfileC mode c ≠ .panic p ∧ packfileC mode c ≠ .err "fuel" :=
+  packfileC_safe mode c p
+
+/-- Memory proportional to the input: what a decoder returns is accounted for, byte by byte, by
+    what it consumed (exact for string lists and blocks, an upper bound for packfiles). -/
+theorem C17_output_bounded_by_input (b : Bytes) :
+    (∀ r rest, strListRead b = .ok (r, rest) → 2 * r.length + rowBytes r + rest.length + 4 = b.length) ∧
+    (∀ rows rest, blockDecode b = .ok (rows, rest) →
+      4 + 4 * rows.length + 2 * (rows.map List.length).sum + (rows.map rowBytes).sum + rest.length = b.length) ∧
+    (∀ v objs, packfileFlat b = .ok (v, objs) → 8 + 2 * objs.length + (objs.map (fun o => o.2.length)).sum ≤ b.length) :=
+  ⟨fun r rest h => strListRead_size_eq b r rest h, fun rows rest h => blockDecode_size_eq b rows rest h,
+   fun v objs h => packfileFlat_size b v objs h⟩
+
 end Wrgl
